@@ -1,1 +1,206 @@
-import Soa.Model.Exec
+import Soa.Props.C01
+import Soa.Lemmas.Ledger
+/-!
+# C08 — a struct's own destructor runs exactly once per element the container destroys
+
+`dropT` lists the struct-destructor runs of a call (named by the element's first leaf id).
+For the destroying operations (`truncate`, `clear`, dropping the vector, the discards of
+`retain`) it is, as a multiset, the first ids of exactly the rows `Vec<T>` destroys; for the
+operations that move an element in or hand one back it is empty.
+-/
+namespace Soa.C08
+open Soa
+
+abbrev firstId (r : Elem) : Nat := r.firstId
+
+theorem firstLeaf_one (e : Cols) (he : e.lock 1) : ∃ r, e.rows = [r] ∧ e.firstLeaf = [firstId r] := by
+  obtain ⟨r, h1, h2⟩ := one_row e he
+  refine ⟨r, h1, ?_⟩
+  unfold Cols.firstLeaf
+  show _ = [r.ids.headD 0]
+  have hne := leaves_ne_nil e 1 he
+  cases hl : e.leaves with
+  | nil => exact absurd hl hne
+  | cons l ls =>
+    have hlen := leaves_lock 1 e he l (by simp [hl])
+    simp only [List.headD_cons]
+    unfold Cols.flat at h2
+    rw [hl] at h2
+    match l, hlen with
+    | [v], _ =>
+      simp only [List.flatten_cons, List.cons_append, List.nil_append] at h2
+      rw [← h2]; rfl
+
+/-- the pop loop runs the destructor once for each discarded row -/
+theorem truncateLoop_dropT (k : Nat) : ∀ (fuel n : Nat) (c : Cols) (ev : Ev),
+    c.lock n → n - k < fuel →
+    (Model.truncateLoop true k fuel c ev).ev.dropT.Perm (ev.dropT ++ (c.rows.drop k).map firstId)
+  | 0, _, _, _, _, h => by omega
+  | fuel + 1, n, c, ev, hc, hf => by
+    simp only [Model.truncateLoop]
+    rw [firstLen_lock c n hc]
+    by_cases hk : n > k
+    · obtain ⟨m, rfl⟩ : ∃ m, n = m + 1 := ⟨n - 1, by omega⟩
+      obtain ⟨st, e, hpop, hl, he, _, hrows, herows⟩ := pop_ok c m hc
+      simp only [hk, ↓reduceIte, hpop, Bool.false_eq_true]
+      have ih := truncateLoop_dropT k fuel m st (ev ++ dropWhole true e) hl (by omega)
+      refine ih.trans ?_
+      obtain ⟨r, hr1, hr2⟩ := firstLeaf_one e he
+      have e1 : (ev ++ dropWhole true e).dropT = ev.dropT ++ [firstId r] := by
+        show ev.dropT ++ (dropWhole true e).dropT = _
+        simp [dropWhole, hr2]
+      rw [e1, hrows]
+      have hlen := rows_len (m + 1) c hc
+      have hsplit : c.rows.drop k = (c.rows.take m).drop k ++ [r] := by
+        rw [herows] at hr1
+        have : c.rows = c.rows.take m ++ c.rows.drop m := (List.take_append_drop m c.rows).symm
+        rw [hr1] at this
+        conv => lhs; rw [this]
+        rw [List.drop_append_of_le_length (by simp [hlen]; omega)]
+      rw [hsplit]
+      simp only [List.map_append, List.map_cons, List.map_nil, List.append_assoc]
+      exact List.Perm.append_left _ List.perm_append_comm
+    · simp only [hk, ↓reduceIte]
+      rw [List.drop_of_length_le (by rw [rows_len n c hc]; omega)]
+      simp
+
+variable {c e : Cols} {n : Nat}
+
+/-- `truncate` / `clear` / dropping the vector: destructor runs = those of `Vec<T>` -/
+theorem truncate (dr : Bool) (k : Nat) (hc : c.lock n) :
+    (Model.truncate dr c k).ev.dropT.Perm (Spec.truncate dr c.rows k).ev.dropT := by
+  cases dr with
+  | true =>
+    have h := truncateLoop_dropT k (c.firstLen - k + 1) n c {} hc (by rw [firstLen_lock c n hc]; omega)
+    simpa [Model.truncate, Spec.truncate, dropRows] using h
+  | false =>
+    have : ∀ (fuel : Nat) (c : Cols) (ev : Ev), ev.dropT = [] →
+        (Model.truncateLoop false k fuel c ev).ev.dropT = [] := by
+      intro fuel
+      induction fuel with
+      | zero => intro c ev h; simpa [Model.truncateLoop] using h
+      | succ f ih =>
+        intro c ev h
+        simp only [Model.truncateLoop]
+        split
+        · rcases pop_cases c with hp | ⟨_, hp⟩ | ⟨_, hp⟩
+          · rw [hp]; simpa using h
+          · rw [hp]
+            simp only [↓reduceIte]
+            show ev.dropT ++ (dropFields _).dropT = []
+            simp [h, dropFields]
+          · rw [hp]
+            simp only [Bool.false_eq_true, ↓reduceIte]
+            apply ih
+            show ev.dropT ++ (dropWhole false _).dropT = []
+            simp [h, dropWhole]
+        · simpa using h
+    simp [Model.truncate, Spec.truncate, dropRows, this _ c {} rfl]
+
+theorem clear (dr : Bool) (hc : c.lock n) :
+    (Model.clear dr c).ev.dropT.Perm (Spec.clear dr c.rows).ev.dropT := truncate dr 0 hc
+
+/-- the vector's own destruction runs the destructor once for every element it holds -/
+theorem dropVec (hc : c.lock n) : (Model.dropVec true c).ev.dropT.Perm (c.rows.map firstId) := by
+  have h := truncate true 0 hc
+  simpa [Spec.truncate, dropRows, Model.dropVec] using h
+
+/-- moving an element in never runs its destructor (also not for the overwritten slot of
+    `replace`, which is handed back) -/
+theorem push_none : (Model.push c e).ev.dropT = [] := rfl
+
+theorem insert_ok (dr : Bool) (i : Nat) (hp : (Model.insert dr c i e).panicked = false) :
+    (Model.insert dr c i e).ev.dropT = [] := by
+  unfold Model.insert at hp ⊢
+  split
+  · simp_all
+  · dsimp only at hp ⊢
+    simp_all
+
+theorem replace_ok (dr : Bool) (i : Nat) (hp : (Model.replace dr c i e).panicked = false) :
+    (Model.replace dr c i e).ev.dropT = [] := by
+  unfold Model.replace at hp ⊢
+  split
+  · simp_all
+  · dsimp only at hp ⊢
+    split
+    · simp_all
+    · rfl
+
+/-- a rejected `insert` / `replace` destroys the element it was given, as `Vec<T>` does:
+    one destructor run -/
+theorem insert_panic (i : Nat) (hc : c.lock n) (he : e.lock 1) (hs : c.same e) :
+    (Model.insert true c i e).ev.dropT.Perm (Spec.insert true c.rows i e.rows).ev.dropT := by
+  obtain ⟨r, hr1, hr2⟩ := firstLeaf_one e he
+  unfold Model.insert Spec.insert Spec.std
+  rw [firstLen_lock c n hc]
+  cases perField (insertOp i) c e n 1 hc he hs with
+  | ok s hrun hfail hp _ _ _ _ _ _ =>
+    have : ¬ i > n := by simpa [insertOp] using hfail
+    rw [hrun]
+    simp only [this, ↓reduceIte, hp]
+    exact List.Perm.refl _
+  | fail hrun hfail _ _ _ =>
+    have : i > n := by simpa [insertOp] using hfail
+    rw [hrun]
+    simp [this, dropWhole, dropRows, hr1, hr2]
+
+/-- handing an element back never runs its destructor -/
+theorem pop_none : (Model.pop c).ev.dropT = [] := by
+  rcases pop_cases c with h | ⟨_, h⟩ | ⟨_, h⟩ <;> rw [h] <;> rfl
+
+theorem remove_none (i : Nat) : (Model.remove c i).ev.dropT = [] := by
+  unfold Model.remove; dsimp only; split <;> rfl
+
+theorem swapRemove_none (i : Nat) : (Model.swapRemove c i).ev.dropT = [] := by
+  unfold Model.swapRemove; dsimp only; split <;> rfl
+
+/-- `retain`: the destructor runs once for each element the callback rejected -/
+theorem retain (keep : Nat → Bool) (hc : c.lock n) :
+    (Model.retain true c keep none (fun _ _ => none)).ev.dropT.Perm
+      ((RetainIdx.filterIdx (fun i => !keep i) 0 c.rows).map firstId) := by
+  have hlen := rows_len n c hc
+  have hL := retainLoop_rows keep none n n 0 0 c [] [] {} [] hc (by omega) (by simp)
+  have hF := RetainIdx.loop_filter keep c.rows
+  have hJ := RetainIdx.loop_junk keep c.rows
+  rw [hlen] at hF hJ
+  simp only at hL hF hJ
+  unfold Model.retain
+  rw [firstLen_lock c n hc]
+  dsimp only
+  generalize Model.retainLoop keep none (fun _ _ => none) n 0 0 c [] {} [] = L at hL ⊢
+  generalize RetainIdx.loop keep none n 0 0 c.rows [] = R at hL hF hJ
+  obtain ⟨hL1, hL2, _, hL4, hL5, _, hL7, _⟩ := hL
+  obtain ⟨hF1, _, _, hF4, hF5⟩ := hF
+  have hb : L.boom = false := by rw [hL4, hF1]
+  by_cases hd : L.del > 0
+  · simp only [hb, hd, Bool.false_eq_true, ↓reduceIte]
+    have ht := truncateLoop_dropT (n - L.del) (L.c.firstLen - (n - L.del) + 1) n L.c {} hL5
+      (by rw [firstLen_lock _ n hL5]; omega)
+    show (L.ev.dropT ++ (Model.truncate true L.c (n - L.del)).ev.dropT).Perm _
+    rw [hL7]
+    simp only [Model.truncate]
+    refine (List.Perm.trans ?_ (List.Perm.map firstId hJ))
+    rw [← hL1, ← hL2]
+    simpa using ht
+  · simp only [hb, hd, Bool.false_eq_true, ↓reduceIte]
+    have hz : R.2.1 = 0 := by rw [← hL2]; omega
+    rw [hz, Nat.sub_zero, List.drop_of_length_le (by omega)] at hJ
+    rw [hL7]
+    have := List.Perm.map firstId hJ
+    simpa using this
+
+/-- the discards of `retain` are destroyed as `Vec::retain` destroys them -/
+theorem retain_spec (keep : Nat → Bool) (rs : List Elem) :
+    (Spec.retain true rs keep none (fun _ _ => none)).ev.dropT =
+      (RetainIdx.filterIdx (fun i => !keep i) 0 rs).map firstId := by
+  unfold Spec.retain
+  rw [Spec.retainGo_none]
+  simp only [dropRows, ↓reduceIte]
+  show ([] : List Nat) ++ _ = _
+  simp
+
+/-! non-vacuity: a Drop-implementing 2-field struct, clearing 2 elements runs 2 destructors -/
+example : (Model.clear true (.nest [.leaf [8, 16], .leaf [9, 17]])).ev.dropT = [16, 8] := by decide
+
+end Soa.C08
